@@ -13,8 +13,8 @@ Every run:
                          library, ports / cables / instances of a definition) and the two
                          sibling-less scopes (netlist, top instance) carry generated names;
                          sdn.compose(..., "x.edf") then sdn.parse.
-     For every scope: (a) identifiers / rename flags of the implementation == Lean model
-     (drv_names, exact strings); (b) P evaluated on the implementation's own output by an
+     For every scope: (a) identifiers / rename flags / written name tokens / net identifiers (token scan
+     of the written file) of the implementation == Lean model (drv_names, exact strings); (b) P evaluated on the implementation's own output by an
      independently written Python oracle AND by the Lean Spec (the two must agree);
      (c) netlist level: the file parses and shows the original names.
   3. Divergences are attributed, through the selectable pinned rules of ModelOld.lean, to the open
@@ -1367,18 +1367,22 @@ def run(ctx):
                 "identifiers and rename flags; level free = free-standing Library/Definition/Port/Cable/Instance objects run through "
                 "the real ComposeEdif._add_rename_property over the list (duplicates allowed), level netlist = a real netlist with "
                 "generated names in all five scopes + netlist + top instance, sdn.compose to .edf, sdn.parse. "
-                "A case is one input; distinct = distinct canonical JSON; non-trivial = netlist level, or >= 2 siblings.")
+                "Cable scopes carry widths 1..4, lower indices and one-wire arrays, with the class `cable x of width w beside scalar cables named <x or its identifier>_<k>_` and case swaps; "
+                "one conflict chain x, x_sdn_1_, ... , X of 1600 siblings (thorough 1000/1600/3000). "
+                "A case is one input; distinct = distinct canonical JSON; non-trivial = netlist level, chain, or >= 2 siblings.")
     ctx.assumptions = [
         "names are non-empty printable ASCII (0x20..0x7e); non-ASCII names are probed only by the oracle (no model correspondence)",
-        "python recursion limit: _conflicts_fix recurses once per conflict; generated sibling lists have <= 40 elements",
-        "theorems conflictsFix_finished / makeValid_fresh_bounded / assign_all_* carry the hypothesis that the scope has fewer than 10^200 siblings "
+        "generated sibling lists have <= 40 elements, plus one conflict chain of 1600 (thorough: 1000/1600/3000) siblings x, x_sdn_1_, ... and X",
+        "theorems conflictsFix_finished / makeValid_fresh_bounded / assign_all_* carry the size hypothesis fuelFor <= 10^200 resp. totalWeight <= 10^100 "
         "(no algorithm can give fresh identifiers of bounded length to arbitrarily many siblings)",
-        "pre-existing EDIF.identifier values in generated inputs are legal and pairwise distinct ignoring case (as a reader leaves them)",
-        "netlist-level observation of net identifiers is of the cable's EDIF.identifier; the per-bit `<id>_<i>_` identifiers of a bus are only observed through the re-read",
+        "pre-existing EDIF.identifier values in generated inputs are legal and what is written for them is pairwise distinct ignoring case (as in a file a reader accepted); "
+        "net identifiers are not judged when a shrunk input leaves that domain",
+        "cables have at least one wire and a non-negative lower index; the net identifiers of a cell are read by a token scan of the written file (not through the re-read)",
     ]
     ctx.partial_notes = [
-        "partial: the last clause of C17 ('the exported file is always readable again and the re-read netlist shows the original names') is "
-        "observed at run time on every generated netlist (sdn.compose + sdn.parse), not proved in Lean (needs the EDIF reader/writer model)",
+        "partial: of the last clause of C17 ('the exported file is always readable again and the re-read netlist shows the original names') Lean proves "
+        "reread_name (the written name token reads back as identifier + original name when the name has no double quote, through the small reader model readName); "
+        "that the whole file parses is observed at run time on every generated netlist (sdn.compose + sdn.parse), not proved",
     ]
     lean.check_obligations(ctx, "Spydr/Names", MODULES, ["drv_names"], "Spydr/Names/Audit.lean", THEOREMS)
     if not os.path.exists(os.path.join(lean.LEAN, ".lake", "build", "bin", "drv_names")):
